@@ -1801,7 +1801,9 @@ fn verify_nsec(
     // for a wildcard record there.
     for seed_name in [covering_nsec_name, covering_nsec_data.next_domain_name()] {
         let mut candidate_name = seed_name.clone();
-        while candidate_name.num_labels() > next_closest_encloser.num_labels() {
+        // Count every label: `num_labels()` leaves out a leading `*`, and a wildcard-labelled
+        // ancestor of the query name is an existing name like any other here.
+        while candidate_name.iter().count() > next_closest_encloser.iter().count() {
             if candidate_name.zone_of(&query.name) {
                 next_closest_encloser = candidate_name;
                 break;
